@@ -1,5 +1,34 @@
+/-
+C12 — property theorems: on the documented domain (covered representations, well-formed periods, no
+intermediate overflow, exact result representable) every modelled operation returns `.ok` — no result
+depends on signed overflow, a division by zero or a constructor that does not take part in overload
+resolution — of exactly the value that exact rational arithmetic (`Spec`, over ℚ) prescribes.
+-/
 import TetlProofs.C12.Lemmas
 namespace Tetl.C12.Props
-open Tetl Tetl.C12
-theorem sign_pos (v : Int) (h : 0 < v) : sign v = 1 := by unfold sign; omega
+open Tetl Tetl.C12 Tetl.C14
+
+def i64 : ITy := ⟨64, true⟩
+def i32 : ITy := ⟨32, true⟩
+
+/-- `duration_cast<To>(d)` (all four `duration_cast_impl` bodies) is the exact value `c · p / q` truncated toward zero. -/
+theorem durationCast_eq (dst frm : DurTy) (hto : RepOk dst.rep) (hfrm : RepOk frm.rep)
+    (hp : PerOk frm.per) (hq : PerOk dst.per) (hdiv : DivOk frm.per dst.per)
+    (c : Int) (hc : frm.rep.inR c = true)
+    (hmul : imax.inR (c * cfN frm.per dst.per) = true)
+    (hres : dst.rep.inR (Spec.cast frm.per.toRat dst.per.toRat c) = true) :
+    durationCast dst frm c = .ok (Spec.cast frm.per.toRat dst.per.toRat c) := by
+  obtain ⟨hN, hD, hN', hD', _⟩ := cf_facts frm.per dst.per hp hq
+  unfold durationCast
+  rw [castCtx_eq dst frm hto hfrm hp hq hdiv]
+  simp only [bind, Except.bind]
+  rw [castCore_eq dst.rep _ _ hN hD (by have := hdiv.1; omega) (by have := hdiv.2; omega) c (repOk_sub hfrm c hc) hmul,
+    cast_val _ _ hp hq, conv_of_inR _ (repOk_w hto) _ hres]
+
+-- non-vacuity (a test on one sample, not a proof of anything general): -7 ticks of 1001/30000 s as int32 milliseconds
+example : durationCast ⟨i32, ⟨1, 1000⟩⟩ ⟨i64, ⟨1001, 30000⟩⟩ (-7) = .ok (-233) := by
+  have h := durationCast_eq ⟨i32, ⟨1, 1000⟩⟩ ⟨i64, ⟨1001, 30000⟩⟩ (by decide) (by decide) (by decide) (by decide) (by decide)
+    (-7) (by decide) (by decide)
+  rw [h] <;> decide +kernel
+
 end Tetl.C12.Props
